@@ -46,7 +46,6 @@ def allowed_external(fn):
 STATE_EXCEPTIONS = {
     ('iso_2022_jp::Iso2022JpDecoder', 'output_state'): 'selects the charset of the next unit, not how many units: every charset is 1 byte -> <=1 unit or 2 bytes -> 1 unit, bounded by the worst case used',
     ('replacement::ReplacementDecoder', 'emitted'): 'once set the decoder emits nothing more; ignoring it only over-estimates',
-    ('utf_16::Utf16Decoder', 'pending_bmp'): 'pending_bmp implies lead_surrogate != 0, which the query reads (+2)',
     ('utf_8::Utf8Decoder', 'code_point'): 'value accumulator: affects which scalar is produced, not how many units (worst case assumed)',
     ('utf_8::Utf8Decoder', 'lower_boundary'): 'validity window of the next continuation byte, not a size term',
     ('utf_8::Utf8Decoder', 'upper_boundary'): 'validity window of the next continuation byte, not a size term',
